@@ -1,13 +1,234 @@
+import LA.Model.Client
 import LA.Drv.Util
 
-/-! line-protocol commands of the Client family (filled in with its model). -/
+/-!
+Line-protocol commands of the Client family (`cli …`, `nl …`).
+
+```
+cli new <seq0> <bufLen> <closeOk>          → ok
+cli plans <plan> …                         → ok        plan = P<0|1>[,item]…   (one per coming request)
+cli enqueue <item> …                       → ok        unsolicited traffic put on the receive queue
+      item = i | a | f | n | r<hex> | x<delta>:<hex>  (EINTR, EAGAIN, hard failure, no messages,
+             datagram, datagram whose sequence field is overwritten by own+delta)
+cli <op> <args>                            → ret=<class> data=<d> sent=<typ.flags.seq.hex;…> recvs=<n> pending=<n,…> closes=<n> queue=<n>
+cli late                                   → every byte slice returned so far, read now
+cli fromwire <hex receiver image> <hexbuf> → err:eof | <hex image>
+nl ser <typ> <flags> <seq> <pid> <hex>     → <hex>
+nl send <cpid> <cseq> <typ> <flags> <pid> <hex> → <seq> <hex>
+nl parse <hex>                             → err | <len>.<typ>.<flags>.<seq>.<pid>.<hexdata>
+nl recv <hex|e> <k<pid>.<groups>|o>         → err:<class> | <as parse>
+nl perr <hex>                              → nil | errno:<n> | err
+```
+-/
 namespace LA.Drv.Client
+open LA LA.Netlink LA.Client
 
 structure State where
-  dummy : Unit := ()
+  st   : St := St.init 0 0 true
+  refs : List Ref := []
 
 def init : State := {}
 
-def cmd (s : State) (_args : List String) : State × String := (s, "bad-op")
+def renderErr : Err → String
+  | .errno n => "errno:" ++ toString n
+  | .eof => "err:eof"
+  | _ => "err"
+
+def hexList (bs : List Bytes) : String :=
+  if bs.isEmpty then "none" else ",".intercalate (bs.map hex)
+
+def renderData (buf : Bytes) : Data → String
+  | .none => "-"
+  | .status s => "st:" ++ hex s.toWire
+  | .rules rs => "rules:" ++ hexList (rs.map (Ref.deref buf))
+  | .count n => "count:" ++ toString n
+  | .seq n => "seq:" ++ toString n
+  | .raw t d => "raw:" ++ toString t ++ ":" ++ hex (d.deref buf)
+
+def refsOf : Data → List Ref
+  | .rules rs => rs
+  | .raw _ d => [d]
+  | _ => []
+
+def renderSent (m : Sent) : String :=
+  toString m.typ ++ "." ++ toString m.flags ++ "." ++ toString m.seq ++ "." ++ hex m.data
+
+def natList (l : List Nat) : String :=
+  if l.isEmpty then "-" else ",".intercalate (l.map toString)
+
+def renderStep (s0 s1 : St) (o : Out) : String :=
+  let ret := match o with
+    | .ok _ => "nil"
+    | .fail e => renderErr e
+    | .panic => "panic"
+  let data := match o with
+    | .ok d => renderData s1.buf d
+    | _ => "-"
+  let newSent := s1.sent.drop s0.sent.length
+  "ret=" ++ ret ++ " data=" ++ data ++
+  " sent=" ++ (if newSent.isEmpty then "-" else ";".intercalate (newSent.map renderSent)) ++
+  " recvs=" ++ toString (s1.recvs - s0.recvs) ++
+  " pending=" ++ natList s1.pending ++
+  " closes=" ++ toString s1.closes ++
+  " queue=" ++ toString s1.queue.length
+
+def parseItem (w : String) : Option PItem :=
+  match w.toList with
+  | ['i'] => some ⟨.eintr, none⟩
+  | ['a'] => some ⟨.eagain, none⟩
+  | ['f'] => some ⟨.fail, none⟩
+  | ['n'] => some ⟨.nothing, none⟩
+  | 'r' :: rest => (unhex (String.ofList rest)).map fun b => ⟨.raw b, none⟩
+  | 'x' :: rest =>
+    match (String.ofList rest).splitOn ":" with
+    | [d, h] =>
+      match d.toNat?, unhex h with
+      | some d, some b => some ⟨.raw b, some d⟩
+      | _, _ => none
+    | _ => none
+  | _ => none
+
+def parsePlan (w : String) : Option Plan :=
+  match w.splitOn "," with
+  | "P1" :: items => (items.mapM parseItem).map fun is => { sendOk := true, items := is }
+  | "P0" :: items => (items.mapM parseItem).map fun is => { sendOk := false, items := is }
+  | _ => none
+
+def parseBool (w : String) : Option Bool :=
+  if w == "1" then some true else if w == "0" then some false else none
+
+def parseOp (args : List String) : Option Op :=
+  match args with
+  | ["getstatus"] => some .getStatus
+  | ["getstatusasync", a] => (parseBool a).map .getStatusAsync
+  | ["getrules"] => some .getRules
+  | ["deleterules"] => some .deleteRules
+  | ["deleterule", h] => (unhex h).map .deleteRule
+  | ["addrule", h] => (unhex h).map .addRule
+  | ["setpid", p, wm] => do some (.setPID (← p.toNat?) (← wm.toNat?))
+  | ["setratelimit", v, wm] => do some (.setRateLimit (← v.toNat?) (← wm.toNat?))
+  | ["setbackloglimit", v, wm] => do some (.setBacklogLimit (← v.toNat?) (← wm.toNat?))
+  | ["setenabled", e, wm] => do some (.setEnabled (← parseBool e) (← wm.toNat?))
+  | ["setimmutable", wm] => do some (.setImmutable (← wm.toNat?))
+  | ["setfailure", fm, wm] => do some (.setFailure (← fm.toNat?) (← wm.toNat?))
+  | ["setbacklogwaittime", w, wm] => do some (.setBacklogWaitTime (← w.toInt?) (← wm.toNat?))
+  | ["wait"] => some .waitAcks
+  | ["close"] => some .close
+  | ["receive"] => some .receive
+  | _ => none
+
+def renderMsg (m : Msg) : String :=
+  toString m.hdr.len ++ "." ++ toString m.hdr.typ ++ "." ++ toString m.hdr.flags ++ "." ++
+  toString m.hdr.seq ++ "." ++ toString m.hdr.pid ++ "." ++ hex m.data
+
+def parseFrom (w : String) : Option From :=
+  match w.toList with
+  | ['o'] => some .other
+  | 'k' :: rest =>
+    match (String.ofList rest).splitOn "." with
+    | [p, g] => do some (.netlink (← p.toNat?) (← g.toNat?))
+    | _ => none
+  | _ => none
+
+def renderRecvErr : RecvErr → String
+  | .sys => "err:sys"
+  | .tooShort => "err:short"
+  | .notKernel => "err:notkernel"
+  | .writer => "err:writer"
+  | .parse => "err:parse"
+
+def parseAuditOpt (b : Bytes) : Option Msg :=
+  match parseAudit b with
+  | .ok m => some m
+  | _ => none
+
+def nlCmd (args : List String) : String :=
+  match args with
+  | ["ser", t, f, q, p, h] =>
+    match t.toNat?, f.toNat?, q.toNat?, p.toNat?, unhex h with
+    | some t, some f, some q, some p, some d => hex (serialize ⟨⟨0, t, f, q, p⟩, d⟩)
+    | _, _, _, _, _ => "bad-op"
+  | ["send", cp, cs, t, f, p, h] =>
+    match cp.toNat?, cs.toNat?, t.toNat?, f.toNat?, p.toNat?, unhex h with
+    | some cp, some cs, some t, some f, some p, some d =>
+      let r := NL.send ⟨cp, cs⟩ ⟨⟨0, t, f, 0, p⟩, d⟩
+      toString r.2.1 ++ " " ++ hex r.2.2
+    | _, _, _, _, _, _ => "bad-op"
+  | ["parse", h] =>
+    match unhex h with
+    | some b =>
+      match parseAudit b with
+      | .ok m => renderMsg m
+      | .err => "err"
+      | .oob => "oob"
+    | none => "bad-op"
+  | ["recv", h, src] =>
+    if h == "e" then
+      match NL.receive (α := Msg) none true parseAuditOpt with
+      | .ok m => renderMsg m
+      | .error e => renderRecvErr e
+    else
+      match unhex h, parseFrom src with
+      | some b, some src =>
+        match NL.receive (some (b, src)) true parseAuditOpt with
+        | .ok m => renderMsg m
+        | .error e => renderRecvErr e
+      | _, _ => "bad-op"
+  | ["perr", h] =>
+    match unhex h with
+    | some b =>
+      match parseNetlinkError b with
+      | .none => "nil"
+      | .errno n => "errno:" ++ toString n
+      | .short => "err"
+      | .oob => "oob"
+    | none => "bad-op"
+  | _ => "bad-op"
+
+def cmd (s : State) (args : List String) : State × String :=
+  match args with
+  | "nl" :: rest => (s, nlCmd rest)
+  | ["new", q, b, c] =>
+    match q.toNat?, b.toNat?, parseBool c with
+    | some q, some b, some c => ({ st := St.init q b c, refs := [] }, "ok")
+    | _, _, _ => (s, "bad-op")
+  | "plans" :: ws =>
+    match ws.mapM parsePlan with
+    | some ps =>
+      let tooBig := ps.any fun p => p.items.any fun it =>
+        match it.item with
+        | .raw b => b.length > s.st.buf.length
+        | _ => false
+      if tooBig then (s, "unmodelled:datagram-exceeds-receive-buffer")
+      else ({ s with st := (step s.st (.plans ps)).1 }, "ok")
+    | none => (s, "bad-op")
+  | "enqueue" :: ws =>
+    match ws.mapM parseItem with
+    | some its =>
+      let tooBig := its.any fun it =>
+        match it.item with
+        | .raw b => b.length > s.st.buf.length
+        | _ => false
+      if tooBig then (s, "unmodelled:datagram-exceeds-receive-buffer")
+      else ({ s with st := (step s.st (.enqueue (its.map (·.item)))).1 }, "ok")
+    | none => (s, "bad-op")
+  | ["late"] => (s, hexList (s.refs.map (Ref.deref s.st.buf)))
+  | ["fromwire", r, h] =>
+    match unhex r, unhex h with
+    | some r, some b =>
+      if r.length ≠ 44 then (s, "bad-op") else
+      match fromWireBytes (Status.ofBytes r) b with
+      | some img => (s, hex img)
+      | none => (s, "err:eof")
+    | _, _ => (s, "bad-op")
+  | _ =>
+    match parseOp args with
+    | some op =>
+      let r := step s.st op
+      let refs := match r.2 with
+        | .ok d => refsOf d
+        | _ => []
+      ({ st := r.1, refs := s.refs ++ refs }, renderStep s.st r.1 r.2)
+    | none => (s, "bad-op")
 
 end LA.Drv.Client
